@@ -82,6 +82,20 @@ VERUS_UNITS = {
              'ensures tab_ins(*final(self), type_id_spec::<C>()) == tab_ins(*old(self), type_id_spec::<C>()).push(handle),', 'ReactCache::register_mutation_reactor'),
         ],
     },
+    'commands': {
+        'template': 'commands.rs.tpl',
+        'owners': [
+            (r'try_cleanup_data_entity$', ['C05', 'C18']),
+            (r'(start|end)_system_event$', ['C03', 'C04', 'C05']),
+            (r'(start|end)_entity_reaction$', ['C03', 'C04']),
+            (r'(start|end)_despawn_reaction$', ['C03', 'C04', 'C07']),
+            (r'(start|end)_entity_event$', ['C03', 'C04', 'C05']),
+            (r'(start|end)_broadcast_event$', ['C03', 'C04', 'C05']),
+        ],
+        'negctl': [
+            ('cleanup_spec(old(world), final(world), old(world).event().data_entity),', 'ecs_same(old(world), final(world)),', 'end_entity_event'),
+        ],
+    },
     'lemmas': {
         'template': 'lemmas.rs.tpl',
         'owners': [
